@@ -40,6 +40,12 @@ Theorem C11_load_safe : forall f next,
 Proof. intros f next. destruct (load_shard_served_safe f next) as (r & <- & H). exact H. Qed.
 Print Assumptions C11_load_safe.
 
+(** ... and everything make() is asked for with a size taken from the file while loading stays below 30 bytes per
+    byte of the (mapped) file — before the repair a 9-byte section requested 8 TiB (C11_load_unfixed_refuted). *)
+Theorem C11_load_alloc_bound : forall f next d, load_shard f next = Ok d -> i_alloc d <= 30 * nlen (f_data f).
+Proof. exact load_alloc_bound. Qed.
+Print Assumptions C11_load_alloc_bound.
+
 Corollary C11_load_class : forall f next, classify_load true (load_shard f next) = SOk \/ classify_load true (load_shard f next) = SErr.
 Proof.
   intros f next. pose proof (load_shard_nd f next) as H. unfold classify_load.
